@@ -1,5 +1,6 @@
 //! vh — verification harness binary. Sub-commands bind the TLA+ specifications in /verif/specs to
 //! the real crates of /repo (path dependencies, feature `verif`).
+mod apigate;
 mod bk;
 mod chunker;
 mod clusterprobe;
@@ -41,6 +42,7 @@ fn main() {
             "matcher-walk" => matchwalk::run(args[2].parse().unwrap(), &args[3], args[4].parse().unwrap(), &args[5]).await,
             "sub-life" => sublife::run(args[2].parse().unwrap(), &args[3], args[4].parse().unwrap(), &args[5]).await,
             "cluster-probe" => clusterprobe::run(&args[2]).await,
+            "api-gate" => apigate::run(&args[2]).await,
             "sim-replay" => sim::run_replay(&args[2], &args[3]).await,
             "replay-members" => members::run(&args[2]),
             "replay-chunker" => chunker::run_chunker(&args[2]),
